@@ -146,9 +146,9 @@ def attr_c03(ev, names):
 
 
 PROPS["C03"] = dict(
-    level_text='MC_ErrDec model-checks the ErrDecimal machine (sticky error, skip after error, flags grow, frame); recorded trap groups (one call under the empty and 32+ trap sets) are validated relationally by TraceRel; recorded ErrDecimal histories are validated step by step with the same EdStep operator.',
+    level_text='MC_ErrDec model-checks the ErrDecimal machine (sticky error, skip after error, flags grow, frame); recorded trap groups (one call under the empty and 32+ trap sets) are validated relationally by TraceRel; recorded ErrDecimal histories are validated step by step with the same EdStep operator. Spec -> code: TLC simulates Gen_Hist (the EdStep machine with outcomes supplied by the layer-2 transcriptions, steered to latch an error early and then attempt only steps that would change their destination); the generated behaviours are replayed through a real ErrDecimal and the recording is judged by layer 1 and compared step by step with the predicted registers, flags and latch.',
     mc=[("MC_ErrDec", None)],
-    drivers=[("traps", "TraceRel"), "errdec", "conditions"],
+    drivers=[("traps", "TraceRel"), "errdec", "genhist", "conditions"],
     attr=attr_c03,
     rule="each case is executed under the empty trap set and under 32 (thorough: sampled cases under all 4095) trap sets; "
          "TraceRel.tla checks the trap relation between the recorded outcomes; ErrDecimal edges/histories validated against ErrDec.tla",
@@ -178,7 +178,7 @@ def attr_c06(ev, names):
 PROPS["C06"] = dict(
     level_text='Recorded groups of the same call into 7 destination pre-states must be identical; register-machine histories are validated with CtxStep against the reference outcome of the same call on clones (history independence, frame, Context and package-state digests unchanged).',
     mc=[("MC_ErrDec", None)],
-    drivers=[("pre", "TraceRel"), "machine", "parse", "codec", "tableedge"],
+    drivers=[("pre", "TraceRel"), "machine", "genhist", "parse", "codec", "tableedge"],
     attr=attr_c06,
     rule="each case is executed into 7 destination pre-states; all recorded outcomes must be identical; operands unchanged",
 )
